@@ -6,6 +6,12 @@ GenKnown.v is rebuilt from the running module on every run:
   * the sizes of the fixed-size entries the parsers cut the payload into (struct / ctypes sizes of the running module);
   * the shape of vlr_factory (AST): first class whose user id and record id match, from_raw inside try/except Exception
     returning the input record -- recognised, otherwise fail closed.
+  * the readers that LIST statements of a method (LasWriter.__init__ / write_evlrs, LasHeader.partial_reset) refuse a method
+    that calls a helper which did not exist when they were written (tools/known_functions.json) and may touch what they list:
+    tools/py2v.py then retries them on the normal form of the source (helpers inlined); a helper that provably has nothing
+    to do with the header (neither its code, transitively, nor the call's arguments mention it) is looked through; a local
+    bound once and handed to self.header once (`t = E; ..t..; self.header = t`) is read as self.header bound first;
+    private helpers introduced since are links, not entry points, of the call graph that ends in _sync_extra_bytes_vlr.
 """
 import ast
 import importlib
@@ -136,9 +142,95 @@ def gen_known(repo):
         walk(fn.body)
         return out
 
+    # ---- helpers that did not exist when these readers were written (ROBUST2: methods split into private helpers) ----
+    # A reader that LISTS the statements of a method would silently list fewer of them when some moved into a new helper.
+    # It therefore refuses (Untranslatable) a method that calls such a helper - tools/py2v.py then retries the definition on
+    # the NORMAL FORM of the source, where the helper is inlined - unless the helper provably has nothing to do with what
+    # the reader lists (neither its code, transitively, nor the arguments of the call mention `needle`).
+    def body_text(fn):
+        return "\n".join(ast.unparse(n) for n in fn.body
+                         if not (isinstance(n, ast.Expr) and isinstance(n.value, ast.Constant) and isinstance(n.value.value, str)))
+
+    def new_helper_calls(fn, cls, mod, needle=None):
+        """names of the functions called in fn that are defined in this class / module, did not exist when the readers were
+        written (tools/known_functions.json) and may touch `needle` (None: any such call counts)"""
+        defs = {n.name: n for n in mod.body if isinstance(n, ast.FunctionDef)}
+        defs.update({n.name: n for n in cls.body if isinstance(n, ast.FunctionDef)})
+
+        def callee(x):
+            f = x.func
+            if isinstance(f, ast.Attribute) and ast.unparse(f.value) in ("self", "cls", cls.name, "type(self)", "self.__class__"):
+                return f.attr
+            if isinstance(f, ast.Name):
+                return f.id
+            return None
+
+        def touches(name, seen):
+            """the code of helper `name`, and of the new helpers it calls, mentions the needle"""
+            if name in seen:
+                return False
+            seen.add(name)
+            d = defs[name]
+            if needle is None or needle in body_text(d) or any(needle in a.arg for a in d.args.args if a.arg not in ("self", "cls")):
+                return True
+            return any(touches(c, seen) for c in (callee(x) for x in ast.walk(d) if isinstance(x, ast.Call))
+                       if c in defs and c not in py2v.KNOWN_FUNCTIONS)
+        out = []
+        for x in ast.walk(fn):
+            if isinstance(x, ast.Call):
+                c = callee(x)
+                if c in defs and c not in py2v.KNOWN_FUNCTIONS:
+                    args = list(x.args) + [k.value for k in x.keywords]
+                    if needle is None or any(needle in ast.unparse(a) for a in args) or touches(c, set()):
+                        out.append(c)
+        return sorted(set(out))
+
+    def bound_late(fn, attr):
+        """`t = E; <statements on t>; self.<attr> = t`  read as  `self.<attr> = E; <the statements on self.<attr>>`: the local t
+        is bound once, handed to self.<attr> once, self.<attr> is not mentioned in between and t is not used afterwards (the
+        object is the same one; between the two statements nobody else can see self.<attr>). Returns fn or a rewritten copy."""
+        import copy
+        target = f"self.{attr}"
+        stmts = simple_statements(fn)
+        binds = [n for n in stmts if isinstance(n, ast.Assign) and len(n.targets) == 1 and ast.unparse(n.targets[0]) == target
+                 and isinstance(n.value, ast.Name)]
+        if len(binds) != 1:
+            return fn
+        t = binds[0].value.id
+        if t in {a.arg for a in fn.args.args + fn.args.kwonlyargs} or (fn.args.vararg and fn.args.vararg.arg == t) or (fn.args.kwarg and fn.args.kwarg.arg == t):
+            return fn
+        stores = [x for x in ast.walk(fn) if isinstance(x, ast.Name) and x.id == t and isinstance(x.ctx, (ast.Store, ast.Del))]
+        first = [n for n in stmts if isinstance(n, ast.Assign) and len(n.targets) == 1 and isinstance(n.targets[0], ast.Name) and n.targets[0].id == t]
+        if len(stores) != 1 or len(first) != 1:
+            return fn
+        i, j = stmts.index(first[0]), stmts.index(binds[0])
+        if not i < j:
+            return fn
+        if any(target in ast.unparse(n) for n in stmts[i:j]):
+            return fn
+        if any(isinstance(x, ast.Name) and x.id == t for n in stmts[j + 1:] for x in ast.walk(n)):
+            return fn
+        # the two statements must be on the straight path of the function (not under a condition / loop / handler)
+        if first[0] not in fn.body or binds[0] not in fn.body:
+            return fn
+        new = copy.deepcopy(fn)
+
+        class R(ast.NodeTransformer):
+            def visit_Name(self, node):
+                if node.id == t:
+                    return ast.copy_location(ast.Attribute(value=ast.Name(id="self", ctx=ast.Load()), attr=attr, ctx=node.ctx), node)
+                return node
+        new = ast.fix_missing_locations(R().visit(new))
+        new.body = [n for n in new.body if not (isinstance(n, ast.Assign) and len(n.targets) == 1
+                                                and ast.unparse(n.targets[0]) == target and ast.unparse(n.value) == target)]
+        return new
+
     def partial_reset():
         mod = py2v.parse(repo, "laspy/header.py")
         fn = py2v.find_func(py2v.find_class(mod, "LasHeader"), "partial_reset")
+        nh = new_helper_calls(fn, py2v.find_class(mod, "LasHeader"), mod)
+        if nh:
+            raise py2v.Untranslatable(f"LasHeader.partial_reset calls helpers that did not exist when this reader was written: {nh}")
         names = []
         for n in simple_statements(fn):
             if (isinstance(n, ast.Assign) and len(n.targets) == 1 and isinstance(n.targets[0], ast.Attribute)
@@ -204,8 +296,13 @@ def gen_known(repo):
         mod = py2v.parse(repo, "laspy/laswriter.py")
         cls = py2v.find_class(mod, "LasWriter")
         init = py2v.find_func(cls, "__init__")
-        hdr = [ast.unparse(n) for n in simple_statements(init) if "self.header" in ast.unparse(n) and not is_log(n)]
         we = py2v.find_func(cls, "write_evlrs")
+        nh = new_helper_calls(init, cls, mod, "header") + new_helper_calls(we, cls, mod)
+        if nh:
+            raise py2v.Untranslatable(f"LasWriter.__init__ / write_evlrs call helpers that did not exist when this reader was written "
+                                      f"and may touch the header: {nh}")
+        init = bound_late(init, "header")
+        hdr = [ast.unparse(n) for n in simple_statements(init) if "self.header" in ast.unparse(n) and not is_log(n)]
         body = [n for n in we.body if not is_doc(n) and not is_log(n)]
         if len(body) < 2 or not all(isinstance(n, ast.If) and not n.orelse for n in body[:2]) \
                 or not isinstance(body[0].body[-1], ast.Raise):
@@ -339,7 +436,8 @@ def gen_known(repo):
                 if k not in reach and es & reach:
                     reach.add(k)
                     changed = True
-        names = sorted({k[1] for k in reach if k != target})
+        # (a private helper introduced since this reader was written is a link of the chain, not an entry point)
+        names = sorted({k[1] for k in reach if k != target and not (k[0] == "m" and k[1].startswith("_") and k[1] not in py2v.KNOWN_FUNCTIONS)})
         clash = [n for n in names if ("m", n) in nodes and ("s", n) in nodes]
         if clash:
             raise py2v.Untranslatable(f"LasHeader: {clash} name both a method and a property setter")
